@@ -160,6 +160,13 @@ add("F55", ["C04"], "C04.assign-protocol|kind|RecordExpr", "`let r = {a = x = 1.
 # ---- error vectors dropped by the unifier (C03.error-drop) ----------------------------------------------------
 add("F56", ["C03"], "C03.error-drop|drop|compiler::typing::unification::unify_vec|collect", "element-wise tuple unification collects the element errors and answers Ok when the remaining relations are consistent: `fn f(a:float, b:(float)->float){ b(a) }  fn dsp(){ f(1.0, 2.0) }` passes the type checker; the VM panics `Invalid indirect callable`, WASM traps `indirect call type mismatch` (findings/repro/F56_tuple_unify_drops_errors.mmm; _b: a number passed for a tuple gives an invalid WASM module). Returning the errors makes 6 existing tests fail: the suite pins the number of diagnostics of many_errors.mmm at 10, and the `str + 2.0` in that file is itself an instance of the defect (an 11th, correct, diagnostic appears); fixtures with default-valued record parameters rely on the leniency too. So it is recorded, not repaired")
 
+# ---- invented binder names (C16.invented-names) ----------------------------------------------------------------
+add("F65", ["C16"], "C16.invented-names|binder|feed_id{}", "`fn dsp(){ let feed_id0 = 5.0  self * 0.5 + feed_id0 }` gives 7.5, 7.5, 7.5 where the same program with the variable called `k` gives 5, 7.5, 8.75: convert_self binds the feedback variable of `self` under the spellable name feed_id<N>, which captures the user's variable (findings/repro/F65_*.mmm). Not repaired: the repository's unit test convert_pronoun::test pins the spelling `feed_id0`")
+fixed("F66", "C16", "2dc402d", "C16.lookahead-nesting|depth|Parser::<'a>::is_tuple_expr", "`let r = ({a = 1.0, b = 2.0})  r.a + r.b` and `let f = (|x, y| x + y)`: is_tuple_expr looked for a comma at parenthesis depth 0 and counted only parentheses, so the comma of the record / of the lambda parameters made the parenthesised expression a one-element tuple; mirgen panicked (`expected record type for field access`, `non function type`); findings/repro/F66_*.mmm")
+fixed("F66", "C16", "2dc402d", "C16.lookahead-nesting|depth|Parser::<'a>::parse_type_tuple_or_paren::{closure#0}", "same scan for types: `(x: ({a:float, b:float}))`")
+fixed("F67", "C16", "3dc550a", "C16.block-scope|block|MIR-generator", "`let x = 1.0  let y = { let x = 2.0  x }  x + y` gave 4.0 on both back ends (3.0 with the inner binder renamed to z): the type checker opens a scope for a block, the MIR generator evaluated the body in the enclosing environment, so the inner `let` replaced the outer binding for the rest of the function (findings/repro/F67_*.mmm)")
+fixed("F64", "C16", "cfb0ebe", "C16.invented-names|binder|record_update_temp", "`let record_update_temp = 7.0  let q = {r <- a = record_update_temp}` failed to type-check (the desugared record update binds a temporary of that name, and the type checker special-cases the name): the temporary is now called `record_update$temp`, which no program can spell (findings/repro/F64_*.mmm)")
+
 
 def main():
     extra = os.path.join(HERE, "tools", "findings_more.py")
